@@ -48,6 +48,31 @@ def cases(ctx):
         prog = g.program(rng.randrange(2, 9), p_flush=rng.choice([0.0, 0.2, 0.4, 0.7]))
         for sc in _scripts(rng, rng.choice([1, 1, 2])):
             yield {"kind": "prog", "prog": prog, "script": sc}
+    # register handles: measured, measured into again (same handle) in the same or a later flush segment, used in conditions
+    for _ in range(ctx.n(150, 15000)):
+        prog, seg, names, nq = [{"op": "qalloc", "q": "k0"}], [], [], 0
+        for _j in range(rng.randrange(4, 12)):
+            c = rng.choice(["new", "new", "reuse", "reuse", "flush", "if"])
+            if c == "flush":
+                prog.append({"op": "flush"})
+                seg = []
+            elif c == "if" and seg:
+                prog.append({"op": "if", "cond": rng.choice(["eq", "ne"]), "a": {"kind": "reg", "name": rng.choice(seg)}, "b": rng.choice([0, 1]),
+                             "form": rng.choice(["ctx", "cb"]), "body": [{"op": "gate", "g": rng.choice(["x", "z", "h"]), "q": "k0"}]})
+            elif c in ("new", "reuse"):
+                nq += 1
+                q = f"w{nq}"
+                prog += [{"op": "qalloc", "q": q}, {"op": "gate", "g": "h", "q": q}]
+                if c == "reuse" and names:
+                    nm = rng.choice(names)
+                    prog.append({"op": "meas", "q": q, "to": {"kind": "reg", "name": nm, "reuse": True}, "inplace": False})
+                else:
+                    nm = f"mr{nq}"
+                    names.append(nm)
+                    prog.append({"op": "meas", "q": q, "to": {"kind": "reg", "name": nm}, "inplace": False})
+                if nm not in seg:
+                    seg.append(nm)
+        yield {"kind": "prog", "prog": prog, "script": [rng.randrange(2) for _ in range(24)], "family": "register-handles"}
     # every measurement script (all outcome sequences) for programs with few random measurements
     for _ in range(ctx.n(40, 4000)):
         g = HostGen(rng, max_depth=rng.choice([2, 3]))
